@@ -506,7 +506,61 @@ fn check_inst(i: &Inst, case: &mut Case) -> Result<(), Fail> {
         let c = a.clone();
         ensure!(c == a && h(&c) == h(&a), "c16:instance-clone", "clone differs or hashes differently");
     }
-    case.extra_evals = 31;
+    // Near twins: one member changed a little (letter case of the name / an attribute key / a value, an empty value
+    // against none, one more or one other port or address). Whether such a twin still counts as equal is the
+    // library's choice and no claim is made about it; the statement is only the implication: if the two compare
+    // equal they hash equally and take one slot of a set, if not they take two.
+    let a = lib("InstanceInformation::new", || make_inst(i, false, 0))?;
+    let upper = |s: &str, k: usize| -> String { s.chars().enumerate().map(|(j, c)| if j == k % s.len().max(1) { c.to_ascii_uppercase() } else { c }).collect() };
+    let mut twins: Vec<(&str, Inst)> = Vec::new();
+    let mut t = i.clone();
+    t.name = upper(&t.name, i.perm[0] as usize);
+    twins.push(("name in another letter case", t));
+    for (k, (key, val)) in i.attrs.iter().enumerate() {
+        let mut t = i.clone();
+        t.attrs[k].0 = upper(key, i.perm[1] as usize);
+        twins.push(("an attribute key in another letter case", t));
+        let mut t = i.clone();
+        t.attrs[k].1 = match val {
+            None => Some(String::new()),
+            Some(v) if v.is_empty() => None,
+            Some(v) => Some(upper(v, i.perm[2] as usize)),
+        };
+        twins.push(("an attribute value changed (letter case, or empty against none)", t));
+        let mut t = i.clone();
+        t.attrs.remove(k);
+        twins.push(("one attribute fewer", t));
+    }
+    if let Some(p0) = i.ports.first() {
+        let mut t = i.clone();
+        t.ports[0] = p0.wrapping_add(1);
+        twins.push(("one port changed", t));
+    }
+    let mut t = i.clone();
+    t.ports.push(i.perm[3]);
+    twins.push(("one more port", t));
+    if !i.ips.is_empty() {
+        let mut t = i.clone();
+        t.ips[0].0 = !t.ips[0].0;
+        twins.push(("one address of the other family", t));
+        let mut t = i.clone();
+        t.ips.remove(0);
+        twins.push(("one address fewer", t));
+    }
+    let ntw = twins.len() as u64;
+    for (what, t) in twins {
+        let b = lib("InstanceInformation::new", || make_inst(&t, false, 0))?;
+        let eq = lib("InstanceInformation::eq", || a == b)?;
+        let eq2 = lib("InstanceInformation::eq", || b == a)?;
+        ensure!(eq == eq2, "c16:instance-eq-asymmetric", "a == b is {} but b == a is {} ({})", eq, eq2, what);
+        if eq {
+            case.class("near-twin-equal");
+            ensure!(h(&a) == h(&b), "c16:hash-instance", "two InstanceInformation values that compare equal hash differently ({}): {:?} / {:?}", what, i, t);
+        }
+        let set: std::collections::HashSet<InstanceInformation> = [a.clone(), b].into_iter().collect();
+        ensure!(set.len() == if eq { 1 } else { 2 }, "c16:hash-instance", "two InstanceInformation values with == {} occupy {} slots of a HashSet ({})", eq, set.len(), what);
+    }
+    case.extra_evals = 31 + ntw;
     Ok(())
 }
 
